@@ -110,6 +110,7 @@ def add_interface(ctx: Ctx, rule: str) -> None:
 def allocation(ctx: Ctx, rule: str) -> None:
     fref = f"{VC}.get_allocatable_address"
     fn = ctx.repo.func(fref)
+    ctx.require_locals(fref, ["new_address", "net_ip"])
     loop = the_loop(ctx, fref, ast.For, lambda l: ast.unparse(l.iter) == "self.range", "loop over the address range")
     val = loop.target.id
     views = loop_iteration_views(ctx, fref, loop, None)
